@@ -3,6 +3,7 @@
 from __future__ import annotations
 
 import ast
+import re
 
 from hsa.core import AnalysisError, Repo, Report, body_walk, call_name, dotted, find_assign, kwarg, last_attr, src
 from hsa.flow import guard_text, guards_at
@@ -290,6 +291,20 @@ def r09_3_static_context(repo: Repo, rep: Report):
                 rep.check("R09.3", bool(gs & {"ex.message().is_static", "ex.context.message.is_static"}), m, r, f"{q}: raise WriteInStaticContext under {sorted(gs)[-2:]}", "static violation raised under the wrong condition")
     if n < 3:
         rep.bad("R09.3", m, None, f"{n} WriteInStaticContext raise sites", "expected SSTORE/TSTORE, LOG and CREATE to reject static frames", construct="sevm.SEVM")
+    # any further site that raises WriteInStaticContext (e.g. a repair of the value-transfer TODO in call): the value
+    # operand is a term, so `fund != ZERO` is a structural test (a symbolic value that may be 0 would fail the frame,
+    # dropping the executions where the zero-value call succeeds), and CALLCODE with value is legal in a static frame
+    reviewed = {"sevm.SEVM.sstore", "sevm.SEVM.run", "sevm.SEVM.create"}
+    for q, fn in repo.functions("sevm"):
+        full = f"sevm.{q}"
+        if full in reviewed:
+            continue
+        for r in body_walk(fn):
+            if isinstance(r, ast.Raise) and "WriteInStaticContext" in src(r) and m.qual(r) == full:
+                gs = guard_set(m, r)
+                structural = [g for g in gs if re.search(r"\b(fund|value|arg_value)\b\s*(!=|==)\s*(ZERO|0)\b|\b(ZERO|0)\s*(!=|==)\s*(fund|value)\b", g) and "check(" not in g]
+                scheme = any(re.search(r"op\s*(==\s*OP_CALL\b|!=\s*OP_CALLCODE\b)", g) for g in gs)
+                rep.check("R09.3", not structural and scheme, m, r, f"{full}: raise WriteInStaticContext under {sorted(gs)[-3:]}", "static-context failure of a value transfer decided by a structural comparison of the value term and/or for every call scheme: a symbolic value that may be zero fails the frame, and CALLCODE (which moves no balance) is rejected")
     # TSTORE goes through the same guarded sstore
     _, run = repo.fn("sevm.SEVM.run")
     ts = [c for c in body_walk(run) if isinstance(c, ast.Call) and dotted(c.func) == "self.sstore"]
@@ -377,6 +392,24 @@ def r09_5_returndata(repo: Repo, rep: Report):
     rep.check("R09.5", got == {0xF0, 0xF5}, m, ic, f"is_create: call_scheme in {sorted(got)}", "is_create must recognise exactly CREATE (0xf0) and CREATE2 (0xf5): it decides whether RETURNDATA is empty after a successful creation and whether the frame's input is code")
 
 
+def r09_7_exception_classes(repo: Repo, rep: Report):
+    rep.rule("R09.7", "every EVM failure class is an EvmException (fails the frame atomically, caller resumes with flag 0); tool limits are HalmosExceptions (abandon the path)")
+    m = repo.mod("exceptions")
+    bases = {c.name: [src(b) for b in c.bases] for c in m.tree.body if isinstance(c, ast.ClassDef)}
+    nodes = {c.name: c for c in m.tree.body if isinstance(c, ast.ClassDef)}
+    # frozen from the reviewed tree / the execution specs (ethereum/execution-specs: ExceptionalHalt subclasses)
+    halts = ["StackUnderflowError", "StackOverflowError", "OutOfGasError", "InsufficientFunds", "InvalidOpcode", "InvalidJumpDestError", "MessageDepthLimitError", "WriteInStaticContext", "OutOfBoundsRead", "InvalidParameter", "InvalidContractPrefix", "AddressCollision"]
+    want = {h: ["ExceptionalHalt"] for h in halts}
+    want.update({"ExceptionalHalt": ["EvmException"], "Revert": ["EvmException"], "EvmException": ["Exception"]})
+    for name, b in want.items():
+        if name not in bases:
+            raise AnalysisError(f"exceptions.{name} not found")
+        rep.check("R09.7", bases[name] == b, m, nodes[name], f"class {name}({', '.join(bases[name])})", f"{name} must derive from {b[0]}: raised inside a sub-frame it has to end that frame only (state restored, flag 0 to the caller), not the whole path")
+    # nothing else may claim to be an EVM failure
+    extra = sorted(n for n, b in bases.items() if n not in want and any(x in ("ExceptionalHalt", "EvmException", "Revert") for x in b))
+    rep.check("R09.7", not extra, m, nodes[extra[0]] if extra else m.tree, f"EVM failure classes beyond the reviewed table: {extra}", "a new EVM failure class needs review: which instruction raises it and whether the frame rollback applies")
+
+
 def r09_6_shared(repo: Repo, rep: Report):
     """the context a call sees (sender under prank, frame state) must not be shared between sibling paths or frames:
     fork-copy completeness and the absence of custom copy hooks (shared with C20 / C14)"""
@@ -394,4 +427,4 @@ def r09_6_shared(repo: Repo, rep: Report):
     check_verdict_sites(repo, rep, "R02.1", modules=("sevm",), only_functions={"sevm.SEVM.handle_insufficient_fund_case", "sevm.SEVM.transfer_value"})
 
 
-RULES = [r09_1_snapshot_restore, r09_2_message_construction, r09_3_static_context, r09_4_value_transfer, r09_5_returndata, r09_6_shared]
+RULES = [r09_1_snapshot_restore, r09_2_message_construction, r09_3_static_context, r09_4_value_transfer, r09_5_returndata, r09_6_shared, r09_7_exception_classes]
